@@ -325,6 +325,18 @@ def case_errors(ctx, cfg):
             if not isinstance(e, NotCollinear):
                 ctx.fail(f"crossratio:not-collinear:2d:{'no-raise' if e is None else type(e).__name__}", "crossratio", {"points": t}, "NotCollinear", e if e is not None else r)
                 return
+        # repeated points (equal coordinates, separate objects): a != b, the point set is not on one line
+        for t in itertools.product(pts, repeat=4):
+            if len(set(t)) == 4 or t[0] == t[1] or X.irank([list(p) for p in t]) < 3:
+                continue
+            ctx.state((kind, "repeated", t))
+            ctx.tally("repeated-points")
+            r, e = ctx.call(G.crossratio, *[G.Point(np.array(p, dtype=float) * w) for p, w in zip(t, (1, 2, 1, -1))])
+            ctx.trace()
+            if not isinstance(e, NotCollinear):
+                pat = "".join(str(t.index(p)) for p in t)
+                ctx.fail(f"crossratio:not-collinear:2d:repeated-points:{'no-raise' if e is None else type(e).__name__}", "crossratio", {"points": t, "equality_pattern": pat}, "NotCollinear", e if e is not None else r)
+                return
     elif kind == "points3d":
         pts = JM.T3()[:9]
         for t in itertools.permutations(pts, 4):
@@ -347,6 +359,15 @@ def case_errors(ctx, cfg):
             ctx.trace()
             if not isinstance(e, NotConcurrent):
                 ctx.fail(f"crossratio:not-concurrent:{'no-raise' if e is None else type(e).__name__}", "crossratio", {"lines": t}, "NotConcurrent", e if e is not None else r)
+                return
+        for t in itertools.product(H, repeat=4):
+            if len(set(t)) == 4 or t[0] == t[1] or X.irank([list(h) for h in t]) < 3:
+                continue
+            ctx.state((kind, "repeated", t))
+            r, e = ctx.call(G.crossratio, *[G.Line(np.array(h, dtype=float)) for h in t])
+            ctx.trace()
+            if not isinstance(e, NotConcurrent):
+                ctx.fail(f"crossratio:not-concurrent:repeated-lines:{'no-raise' if e is None else type(e).__name__}", "crossratio", {"lines": t}, "NotConcurrent", e if e is not None else r)
                 return
     else:
         # collections in which only some positions are collinear / concurrent
